@@ -1,6 +1,7 @@
 package main
 
 import (
+	"context"
 	"encoding/json"
 	"fmt"
 	"os"
@@ -25,7 +26,26 @@ type ReplayFile struct {
 	TestSource string            `json:"test_source,omitempty"`
 	TestPkg    string            `json:"test_pkg,omitempty"`
 	TestName   string            `json:"test_name,omitempty"`
+	CandidateOnly bool           `json:"model_is_candidate_from_relaxed_query,omitempty"`
 }
+
+func relaxedModel(o *Obligation) map[string]string {
+	dir, err := os.MkdirTemp("", "govc-relax")
+	if err != nil {
+		return nil
+	}
+	defer os.RemoveAll(dir)
+	f := filepath.Join(dir, "q.smt2")
+	os.WriteFile(f, []byte(o.smtOpt(0, true, true)), 0o644)
+	a := runSolver(context.Background(), "z3-new", f, 5, 0)
+	if a.result != "sat" {
+		return nil
+	}
+	return parseModel(a.out)
+}
+
+// at most this many executable replays per run (each one compiles a test binary)
+var replayBudget = 6
 
 func writeReplay(w *World, dir, prop string, o *Obligation) *ReplayFile {
 	rp := &ReplayFile{Property: prop, Obligation: o.ID, Family: o.Family, Kind: o.Kind, At: o.Pos, Text: o.Text, Status: o.Status, Answers: o.Answers, Model: o.Model}
@@ -44,11 +64,31 @@ func writeReplay(w *World, dir, prop string, o *Obligation) *ReplayFile {
 			rp.Inputs[in.Name] = v
 		}
 	}
+	if o.Status != "refuted" && o.Goal != "" && len(o.DeclMap) > 0 {
+		// the solvers gave no model (quantifiers): ask for a model of the quantifier-free part of the assumptions.
+		// It is only a candidate input - it counts if, and only if, the real code fails on it.
+		if m := relaxedModel(o); len(m) > 0 {
+			rp.Model = m
+			rp.CandidateOnly = true
+			for _, in := range o.Inputs {
+				if v, ok := m[in.Term]; ok {
+					rp.Inputs[in.Name] = v
+				}
+			}
+		}
+	}
 	switch {
-	case o.Status != "refuted" || len(o.Model) == 0:
+	case len(rp.Inputs) == 0 && (o.Status != "refuted" || len(o.Model) == 0):
 		rp.Outcome = "no-model"
+	case replayBudget <= 0:
+		rp.Outcome = "no-adaptor"
+		rp.ReplayLog = "replay not attempted: the budget of executable replays of this run is used up"
 	default:
+		replayBudget--
 		tryReplay(w, o, rp)
+		if rp.CandidateOnly && rp.Outcome != "reproduced" {
+			rp.Outcome = "no-model"
+		}
 	}
 	data, _ := json.MarshalIndent(rp, "", " ")
 	os.WriteFile(rp.Path, data, 0o644)
